@@ -4,6 +4,8 @@ import (
 	"context"
 	"encoding/json"
 	"fmt"
+	"os"
+	"runtime/debug"
 	"sort"
 	"strings"
 	"time"
@@ -159,6 +161,9 @@ func ExecGuard(ctx context.Context, d *db.DB, req string, opts ...client.Request
 		defer func() {
 			if p := recover(); p != nil {
 				r.p = fmt.Sprint(p)
+				if os.Getenv("VERIF_STACK") != "" {
+					fmt.Fprintf(os.Stderr, "%v\n%s\n", p, debug.Stack())
+				}
 			}
 			ch <- r
 		}()
